@@ -44,7 +44,7 @@ Qed.
 
 Lemma layout_matrix_key count h seed w K v :
   verifier_new count h seed w K = Ok v ->
-  v_hmac_key v = fst (lay_matrix_card_new_1 (md5 (lay_matrix_card_new_0 (le64 seed) K))) /\ v_hmac_msg v = [].
+  v_hmac_key v = fst (lay_matrix_card_new_1 (md5 (lay_matrix_card_new_0 seed K))) /\ v_hmac_msg v = [].
 Proof.
   unfold verifier_new. intros H.
   destruct (MatrixCard.generate_coordinates _ _ _ _) as [c| |]; cbn [bind] in H; try discriminate.
